@@ -55,6 +55,7 @@ def strat_case(draw, tier):
     if ctor == "credit":
         case["a_frac"] = [draw(_f(0.05, 0.95)) for _ in range(d)]
         case["symmetric"] = draw(st.booleans())
+    case["refine_on_copy"] = draw(st.booleans())
     return case
 
 
@@ -185,6 +186,12 @@ def body(case):
 
     if not well_formed(g, "construct", h, None, None):
         return out
+    if ctor == "geometric-bounds":
+        for k, axis in enumerate(g.axes):
+            if abs(float(axis[0]) - bounds[0]) > 1e-12 * abs(bounds[0]) or abs(float(axis[-1]) - bounds[1]) > 1e-12 * abs(bounds[1]):
+                out.append(Violation(f"{tag}/construct/end-points-are-not-the-bounds-passed",
+                                     f"axis {k}: [{axis[0]}, {axis[-1]}] for bounds {bounds}"))
+                return out
 
     # ------------------------------------------------------------ promised probabilities
     if ctor in ("uniform", "geometric"):
@@ -269,7 +276,22 @@ def body(case):
             mm = g.middle(lo, hi)
             if tuple(mm) != tuple(0.5 * (x + y) for x, y in zip(lo, hi)):
                 out.append(Violation(f"{tag}/refine/middle-nd", f"middle({lo},{hi})={mm}"))
-        g.refine()
+        if case.get("refine_on_copy"):
+            # the multilevel engine deep-copies the level-l process (grid included) and refines the copy: the original
+            # grid stays the level-l grid
+            import copy as _copy
+
+            original = g
+            g = _copy.deepcopy(original)
+            g.refine()
+            o_now = [original.origin_coordinate.value] if d == 1 else list(original.origin_coordinate.value)
+            if original.h != old_h or o_now != old_origin or \
+                    any(not np.array_equal(np.asarray(x, dtype=float), y) for x, y in zip(original.axes, old_axes)):
+                out.append(Violation(f"{tag}/refine/refining-a-deep-copy-changed-the-original-grid",
+                                     f"step {step}: h {old_h} -> {original.h}, origin {old_origin} -> {o_now}"))
+                return out
+        else:
+            g.refine()
         if not well_formed(g, "refine", old_h / 2, [2 * o for o in old_origin], trunc0):
             return out
         for k, (old, new) in enumerate(zip(old_axes, g.axes)):
